@@ -185,6 +185,17 @@ func checkBody(c *mon.C, code uint16, reason string) bool {
 			return false
 		}
 	}
+	// the body belongs to the caller (a client masks it in place before sending):
+	// scribbling over it must not influence the next body built from the same arguments
+	for i := range body {
+		body[i] ^= 0xa5
+	}
+	again := ws.NewCloseFrameBody(ws.StatusCode(code), reason)
+	if !bytes.Equal(again, want) {
+		c.Fail("closebody/shared-memory", "a body built after the caller modified an earlier body for the same (code, reason) differs: builder results share memory", det)
+		return false
+	}
+	body = again
 	if len(reason) <= 123 {
 		p := make([]byte, 2+len(reason))
 		ws.PutCloseFrameBody(p, ws.StatusCode(code), reason)
@@ -247,9 +258,9 @@ func main() {
 		Property: "C03",
 		Level:    "exploration",
 		Rule: "exhaustive: (a) Fin x Rsv(8) x OpCode(16) x Masked x 7 length classes x side{none,server,client} x extended x fragmented = 43008 (header,state) pairs against the reference rule set (accept iff no rule broken; reported error must name a broken rule), " +
-			"(b) all 65536 close codes x 9 reasons (valid and invalid UTF-8) against the code classes of the statement, (c) body construction/parsing for all codes x reason lengths (0..130 for a subset in quick, for all codes in thorough). " +
+			"(b) all 65536 close codes x 9 reasons (valid and invalid UTF-8) against the code classes of the statement, (c) body construction/parsing for all codes x reason lengths (0..130 for a subset in quick, for all codes in thorough), each body modified in place by the caller and built again (results must not share memory); (d) the exported classification predicates for all 256 opcode values and all 65536 status codes. " +
 			"distinct = (opcode, side, extended, fragmented, broken-rule set) / (code range, class, reason kind) classes.",
 		Assumptions: []string{"ref.BrokenRules and ref.CloseCodeClass transcribe the rule list of the property statement", "the exported ErrProtocol* values are mapped one-to-one to rules"},
-		Subs:        []mon.Sub{subHeaderGrid(), subCloseCodes(), subCloseBody()},
+		Subs:        []mon.Sub{subPredicates(), subHeaderGrid(), subCloseCodes(), subCloseBody()},
 	})
 }
